@@ -20,7 +20,7 @@ ASSUMPTIONS = [
     'the managed set is computed from the harness\'s own call log plus the model\'s record of the last committed build\'s outputs/created directories',
     'foreign files are planted between API calls only (documented obligation)',
 ]
-CFG = gen.cfg_with(probe_w=1, max_root=5)
+CFG = gen.cfg_with(probe_w=1, max_root=5, alt_roots_p=0.3)
 
 
 def program_strategy(cfg, cache):
